@@ -13,6 +13,18 @@ CHECKS = {
          "Seeded random exploration of voucher/settle/collect histories (lanes, relative nonces, merges, time locks, secrets, min settle heights, extra calls, good/foreign/missing signer-bound signatures, any submitter, epoch jumps around settling_at, top-ups) on the real actor in SimVM incl. real Collect with actor deletion; after every message the channel state must equal an independent reference model, a voucher accepted although the protocol forbids it is a violation, and Collect must make exactly the two exact payouts. Exploration: unbounded histories, exact oracle per history.",
          "Trusted: SimVM semantics, fake but signer-bound signatures, account-actor parties. Merge lists naming one lane twice judged by safety clauses only.",
          "§3 C16"),
+ "C06": ("property-based testing (proptest, stateful op sequences) against an independent deal-ledger model + recomputed sums",
+         "Seeded random exploration of market histories (deposits, withdrawals by any caller for any party and amount, publish batches with valid/duplicate/unfunded/bad-signature/foreign-provider deals, both activation paths, partial settlements, terminations, market cron, epoch jumps to deal boundaries) over 3 clients and 2 real miners; after every message the locked table must equal the obligations recomputed from the model's deals, locked<=escrow, market totals == per-deal sums, escrow total <= balance, burns == forfeited collateral, and every successful withdrawal must be exactly min(requested, escrow-locked), by an approved caller, paid once to the party/owner.",
+         "Trusted: SimVM semantics; market addressed as the real miner actors by implicit messages; fake signer-bound signatures; constant circulating supply; sparse epochs with market.CronTick invoked as cron.",
+         "§3 C06"),
+ "C07": ("property-based testing with a closed-form oracle and a metamorphic relation over settlement schedules",
+         "For generated deal shapes (plus 0-2 bystander deals of the same provider) and 2-3 generated schedules of settlement calls and cron ticks placed relative to the deal's start/end/processing epoch, with a common optional termination epoch, every schedule runs on a fresh world; each settlement must pay exactly price x epochs since the last payment point, the totals must equal the closed form (price x (min(end,T)-start)+, refund, collateral returned or burnt) and the final ledgers must be identical across schedules.",
+         "Trusted: as C06. The deal-ledger model mirrors the market's cron scheduling (processing epoch = first epoch >= start congruent to the deal id modulo 30 days).",
+         "§3 C07"),
+ "C08": ("property-based testing (proptest, stateful op sequences) against a registry model of proposals, ids and activations",
+         "Seeded random exploration biased to publication and activation: exact re-publications, in-batch duplicates, bad/foreign signatures, unfunded parties, foreign providers, both activation paths with repeated ids, foreign miner, short-lived sectors, late activation, wrong piece, racing cron/settlement at the start epoch; a deal accepted or activated although the protocol forbids it is a violation; ids must be sequential and never reused; a deal is activated at most once; time-outs must refund the client and burn the provider collateral, never before the start epoch and certainly by the tick at the processing epoch.",
+         "Trusted: as C06. Re-publication of a proposal identical to a live, already activated deal is treated as a grey zone (model mirrors the code; history abandoned on disagreement).",
+         "§3 C08"),
 }
 PENDING_REASON = "check not built yet in this session (engine planned in DESIGN.md §3); not claimed until it runs silently on the unchanged tree and kills its mutants"
 
